@@ -298,9 +298,9 @@ C["C15"] = {
 C["C16"] = {
  "pkgs": ["."],
  "technique": "bounded symbolic execution of the real connection handlers, sendLWT, sendDelayedLWT and processDisconnect over solver-chosen ways of ending the connection, will delay and housekeeping times symbolic; goroutine choices (old connection's teardown vs the new connection) explored",
- "quick": {"harnesses": [H("VerifC16Will")], "budget_s": 400, "witnesses": 8, "perm_limit": 1,
+ "quick": {"harnesses": [H("VerifC16Will"), H("VerifC16TakeoverRace", PREEMPT=1)], "budget_s": 400, "witnesses": 8, "perm_limit": 1,
    "bounds": "will QoS 0/1, retain, delay 0 or symbolic 1..1000 s, protocol 4/5; end of connection in {DISCONNECT, DISCONNECT 0x04, connection lost, second CONNECT, takeover with Clean Start 0, takeover with Clean Start 1}; two housekeeping ticks at symbolic times with an optional resuming connection between them"},
- "thorough": {"harnesses": [H("VerifC16Will")], "budget_s": 1200, "witnesses": 24, "perm_limit": 1, "preempt": 1, "bounds": "as quick plus one pre-emption at a synchronisation operation"},
+ "thorough": {"harnesses": [H("VerifC16Will", PREEMPT=1), H("VerifC16TakeoverRace", PREEMPT=2)], "budget_s": 3000, "witnesses": 24, "perm_limit": 1, "bounds": "as quick plus one pre-emption at a synchronisation operation"},
  "outside_bounds": ["session expiry ending the session before the delay (the delay is capped to the session expiry by ParseConnect; decided arithmetically there)", "interleavings beyond cooperative scheduling + the stated pre-emption bound"],
  "stubs": SRV_STUBS + LIVE, "trusted_base": SRV_TB,
 }
@@ -309,9 +309,9 @@ C["C16"] = {
 C["C03"] = {
  "pkgs": ["."],
  "technique": "bounded symbolic execution of solver-chosen histories through the real SUBSCRIBE/UNSUBSCRIBE/PUBLISH handlers, trie and publishToClient against a set model with reference matching, ACL table and No Local",
- "quick": {"harnesses": [H("VerifC03History", STEPS=3)], "budget_s": 400, "witnesses": 8, "perm_limit": 2,
+ "quick": {"harnesses": [H("VerifC03History", STEPS=3), H("VerifC03Pruning")], "budget_s": 400, "witnesses": 8, "perm_limit": 2,
    "bounds": "2 clients (publisher A v5, subscriber B v4/v5), every history of 3 steps among {subscribe(client, filter in {a/b, a/+, #, x}, No Local), unsubscribe, publish a/b with payload + content type + response topic + correlation data + user property, B disconnects}; read ACL verdict for (B, a/b) symbolic"},
- "thorough": {"harnesses": [H("VerifC03History", STEPS=4)], "budget_s": 3000, "witnesses": 16, "perm_limit": 2, "bounds": "as quick with histories of 4 steps"},
+ "thorough": {"harnesses": [H("VerifC03History", STEPS=4), H("VerifC03Pruning")], "budget_s": 3000, "witnesses": 16, "perm_limit": 2, "bounds": "as quick with histories of 4 steps"},
  "outside_bounds": ["bytes on the wire after a concurrent WriteLoop (the harness drains the queue through the real WritePacket)", "true concurrency between publishers", "longer histories, more clients", "the reported-drop paths (queue full etc.) are C34's"],
  "stubs": SRV_STUBS, "trusted_base": SRV_TB + ["set model of subscriptions in the harness"],
 }
@@ -344,6 +344,18 @@ C["C23"] = {
  "thorough": {"harnesses": [H("VerifC13Attach", WF=1), H("VerifC14Takeover", WF=1), H("VerifC16Will"), H("VerifC07Request", WF=1, VER=5), H("VerifC07Request", WF=1, VER=4), H("VerifC07Request", WF=1, VER=3), H("VerifC23MaxSize", PAYLOAD=40), H("VerifC23SubackV3"), H("VerifC23DisconnectV3")], "budget_s": 1800, "witnesses": 8, "perm_limit": 1, "bounds": "as quick, payload up to 40 bytes"},
  "outside_bounds": ["interleaving of bytes from concurrent writers (WritePacket serialises under the client lock; true parallelism is not modelled)", "packets the encoded handlers cannot emit", "problem/response-information suppression (asserted by the codec check C26 through Mods)"],
  "stubs": SRV_STUBS + LIVE, "trusted_base": SRV_TB,
+}
+
+# ---------------- C18 ----------------
+C["C18"] = {
+ "pkgs": ["./hooks/auth"],
+ "technique": "differential symbolic execution of MatchTopic against a level-wise reference; ACLOk/AuthOk executed twice per path with every map iteration order as an engine decision (determinism) and against a first-match reference (rule order)",
+ "quick": {"harnesses": [H("VerifC18Match", F=4, T=4), H("VerifC18Deterministic", RULES=1), H("VerifC18RuleOrder")], "budget_s": 400, "witnesses": 8, "perm_limit": 3,
+   "bounds": "rule filters: every valid string of 1..4 bytes over {/ + # a b}; topics 1..4 bytes over {/ a b}; determinism: a user with 2 ACL entries (filters from {a/b, a/+, x}, access 0..3) and 1 global rule with 2 filters, topic a/b, read/write symbolic, every order of maps with <= 3 entries; rule order: 2 auth rules + optional user entry; 2 ACL rules"},
+ "thorough": {"harnesses": [H("VerifC18Match", F=6, T=5), H("VerifC18Deterministic", RULES=2), H("VerifC18RuleOrder")], "budget_s": 3000, "witnesses": 16, "perm_limit": 3, "bounds": "filters up to 6 bytes, topics up to 5; 2 global rules"},
+ "outside_bounds": ["RString.Matches glob semantics for client/user/remote (only exact/empty patterns used)", "ledgers with more rules"],
+ "stubs": ["strings.Split/Join/Index/Compare: term-level intrinsics"],
+ "trusted_base": ENGINE_TB + ["reference matcher rMatch in harness/hooks_auth/c18.go"],
 }
 
 def main():
